@@ -152,21 +152,42 @@ DumpWhy(e) == IF e.d.n = n /\ DumpModels(e.d) # mods
 (* strengthen it).  Every learned constraint must be a consequence of that set (C14, C06);   *)
 (* deriving the empty constraint is allowed only if no model satisfies the assumptions.      *)
 WbC(e) == [lits |-> e.lits, w |-> e.w, rel |-> ">=", rhs |-> e.d]
-RECURSIVE WbFold(_, _, _, _)
-WbFold(wb, i, M, k) ==
+(* lv: the decision level of each assigned variable (0 = unassigned), rebuilt from the assign /  *)
+(* prop / backtrack events.  It binds TwoWatch.tla to the code: a clause added at a non-zero     *)
+(* level (block event with at least 3 literals) must have its two highest-level literals in the  *)
+(* watched positions 1 and 2 (Scheme = "highest").                                               *)
+WatchOrderOK(e, lv) ==
+  Len(e.lits) < 3 \/ \A j \in 3..Len(e.lits) :
+      /\ lv[Abs(e.lits[j])] <= lv[Abs(e.lits[1])]
+      /\ lv[Abs(e.lits[j])] <= lv[Abs(e.lits[2])]
+(* lv is kept as a tuple built with \o and Append: TLC evaluates those strictly, whereas nested *)
+(* function constructors would be re-evaluated lazily at every use                            *)
+SetAt(lv, x, y) == SubSeq(lv, 1, x - 1) \o <<y>> \o SubSeq(lv, x + 1, Len(lv))
+RECURSIVE CutFrom(_, _, _)
+CutFrom(lv, L, i) == IF i > Len(lv) THEN <<>> ELSE <<IF lv[i] > L THEN 0 ELSE lv[i]>> \o CutFrom(lv, L, i + 1)
+CutAbove(lv, L) == CutFrom(lv, L, 1)
+RECURSIVE Zeros(_)
+Zeros(k) == IF k = 0 THEN <<>> ELSE Append(Zeros(k - 1), 0)
+RECURSIVE WbFold(_, _, _, _, _)
+WbFold(wb, i, M, k, lv) ==
   IF i > Len(wb) THEN ""
   ELSE LET e == wb[i] IN
        IF e.k \in {"append", "block"}
        THEN IF MaxVar(e.lits) > k THEN ""   \* variable set grows: handled by the black-box layer only
-            ELSE WbFold(wb, i + 1, {m \in M : SatC(m, WbC(e))}, k)
+            ELSE IF e.k = "block" /\ ~WatchOrderOK(e, lv) THEN "block-watch-order"
+            ELSE WbFold(wb, i + 1, {m \in M : SatC(m, WbC(e))}, k, lv)
        ELSE IF e.k \in {"learn", "learn-pb"}
-       THEN IF \A m \in M : SatC(m, WbC(e)) THEN WbFold(wb, i + 1, M, k)
+       THEN IF \A m \in M : SatC(m, WbC(e)) THEN WbFold(wb, i + 1, M, k, lv)
             ELSE "learned-not-entailed:" \o ToString(CHOOSE m \in M : ~SatC(m, WbC(e)))
        ELSE IF e.k = "learn-empty"
-       THEN IF {m \in M : SatLits(m, asm)} = {} THEN WbFold(wb, i + 1, M, k) ELSE "derived-false-on-satisfiable"
-       ELSE WbFold(wb, i + 1, M, k)
-WbWhy(e) == LET w == WbFold(e.wb, 1, mods, n) IN
-            IF w = "" THEN "" ELSE IF Case.wbStrict THEN w ELSE "diag:" \o w
+       THEN IF {m \in M : SatLits(m, asm)} = {} THEN WbFold(wb, i + 1, M, k, lv) ELSE "derived-false-on-satisfiable"
+       ELSE IF e.k \in {"assign", "prop"} /\ Abs(e.lit) \in 1..k
+       THEN WbFold(wb, i + 1, M, k, SetAt(lv, Abs(e.lit), e.lvl))
+       ELSE IF e.k = "backtrack"
+       THEN WbFold(wb, i + 1, M, k, CutAbove(lv, e.lvl))
+       ELSE WbFold(wb, i + 1, M, k, lv)
+WbWhy(e) == LET w == WbFold(e.wb, 1, mods, n, Zeros(n)) IN
+            IF w = "" THEN "" ELSE IF Case.wbStrict /\ w # "block-watch-order" THEN w ELSE "diag:" \o w
 
 First(a, b2) == IF a # "" THEN a ELSE b2
 
